@@ -10,6 +10,7 @@ import (
 	"github.com/xelaj/mtproto/internal/encoding/tl"
 	"github.com/xelaj/mtproto/internal/utils"
 
+	"github.com/xelaj/mtproto/zverif/ref/mtp"
 	"github.com/xelaj/mtproto/zverif/wk"
 )
 
@@ -114,12 +115,12 @@ func randScenario(r *rand.Rand, thorough bool) rpcScenario {
 }
 
 type scenarioResult struct {
-	Calls     []callRec
+	Calls      []callRec
 	Unfinished int
-	Stalled   bool
-	Dump      string
-	HookSeq   []string
-	Groups    []string
+	Stalled    bool
+	Dump       string
+	HookSeq    []string
+	Groups     []string
 }
 
 // runRPCScenario drives callers against the environment while a releaser answers in scripted order/wrapping.
@@ -285,7 +286,52 @@ func c09case(c *wk.Ctx, idx int, r *rand.Rand, sc rpcScenario) {
 		return
 	}
 	defer e.close()
+	// a second, independent client in the same process (its own server, key and session) keeps calling while the
+	// scenario runs: whatever the library shares between instances (package-level tables, pools, scratch) is shared now
+	var noiseWG sync.WaitGroup
+	noiseStop := make(chan struct{})
+	var noise []callRec
+	if idx%4 == 2 {
+		r2 := rand.New(rand.NewSource(r.Int63()))
+		e2, err2 := newRPCEnv(c, idx+1<<20, r2, envOpts{Handler: func(e *rpcEnv, p pendingReq, in *mtp.Inner) bool {
+			e.sendGroup(p.conn, [][]byte{e.resultBody(p, wrapOpts{GzipResult: p.uid%3 == 0})}, []uint64{p.uid}, p.uid%5 == 0)
+			return true
+		}})
+		if err2 == nil {
+			defer e2.close()
+			noiseWG.Add(1)
+			go func() {
+				defer noiseWG.Done()
+				used2 := map[uint64]bool{}
+				for k := 0; k < 400; k++ {
+					select {
+					case <-noiseStop:
+						return
+					default:
+					}
+					kind := rpcKinds[r2.Intn(len(rpcKinds))]
+					var rec callRec
+					if !withTimeout(20*time.Second, func() { rec = e2.doCall(100, uidFor(r2, kind, used2), kind, k%2 == 0) }) {
+						rec = callRec{Kind: kind, Err: "did not return"}
+						noise = append(noise, rec)
+						return
+					}
+					noise = append(noise, rec)
+				}
+			}()
+			c.Count("scenarios.with_second_client", 1)
+		}
+	}
 	res := runRPCScenario(e, r, sc)
+	close(noiseStop)
+	noiseWG.Wait()
+	for _, rc := range noise {
+		c.Count("calls.second_client", 1)
+		if rc.Panic != "" || rc.Err != "" || !rc.OK {
+			c.Viol("C09", idx, "second-client/"+rc.Kind, fmt.Sprintf("an independent client in the same process, calling while the scenario ran: uid=%d kind=%s panic=%q err=%q got=%q", rc.UID, rc.Kind, rc.Panic, rc.Err, rc.Got), sc)
+			break
+		}
+	}
 	shape := fmt.Sprintf("callers=%d kinds=%v", sc.Callers, sc.Kinds)
 	if res.Unfinished > 0 {
 		if res.Stalled {
